@@ -300,6 +300,23 @@ def _run_threaded(res, case):
             return
         for _ in range(int(case.get("pre", 0))):
             spa.get_and_increment_sequence_counter(False)   # a connection that has been up for a while
+        # a second spa object of the same process (another connection): while the first is in the middle of applying an update,
+        # nothing of that update may show up in the other connection's decoder
+        from geckolib.spa import GeckoSpa
+        from geckolib.spa_descriptor import GeckoSpaDescriptor
+        from geckolib.driver.protocol.statusblock import GeckoPartialStatusBlockProtocolHandler as _PH
+        other = GeckoSpa(GeckoSpaDescriptor(b"IOSother-client", b"SPA0a:0b:0c:0d:0e:0f", "Other", ("10.9.9.9", 10022)))
+        other_h = [h for h in other._receive_handlers if isinstance(h, _PH)]
+        if not other_h:
+            other_h = [_PH(other)]
+        orig_replace = spa.struct.replace_status_block_segment
+        leaked = []
+
+        def checked_replace(pos, data):
+            if other_h[0].changes and not leaked:
+                leaked.append(list(other_h[0].changes))
+            return orig_replace(pos, data)
+        spa.struct.replace_status_block_segment = checked_replace
         start, length = spa.new_log_class.begin, spa.new_log_class.end
         lo, hi = _installed_range(start, length)
         ref = _Ref(spa.struct.status_block)
@@ -349,6 +366,9 @@ def _run_threaded(res, case):
                 raise InvalidCase(op)
         if not stepped.run_until(eng, q):
             raise SetupFailed("threaded client not quiescent at the end")
+        if leaked:
+            res.fail("C05|decoder-state-shared|threaded", f"while one connection was applying a partial update, the decoder of ANOTHER spa object held {leaked[0][:3]} "
+                     f"- pending changes are shared between connections")
         got = spa.struct.status_block
         if got != ref.block:
             bad = [i for i in range(min(len(got), BLOCK)) if got[i] != ref.block[i]][:10]
